@@ -796,14 +796,22 @@ class C01(Prop):
               "C01-duplicate-terms), the step preserves sd_denote (C01_cut_step_sound).  Proved directly on the modelled operation through the two-level normal form of "
               "the value at the edge and a regrouping lemma over the cover (cover_split); cut_regroup_sound itself is over a commutative ring with Leibniz equality and "
               "is not instantiable on the label-ordered polynomials"),
-        ("F", "pipeline model, one combine_subtrees call and the driver loop (BFS levels, per level all combines then all cuts): sd_denote is preserved by a combine call "
-              "whose merges satisfy the decidable form of the hypotheses of merge_equal_subtrees_sound (C01_combine_step_sound), and from_hamiltonian_bipartite t H = Some d "
-              "with pipeline_ok t H = true (the step preconditions evaluated before every step of the run) implies sd_denote d = ham_denote H for every tree and "
-              "term list (C01_pipeline_exact_checked_partial).  PARTIAL: not proved is that pairwise distinct terms imply pipeline_ok (the invariant of the BFS run: "
-              "base-shaped sub-diagrams below the frontier, hash consistency, no parallel hyperedges) - it is evaluated per instance instead (next clause)"),
-        ("I", "BIPARTITE, per explored instance without exactly repeated terms: pipeline_ok holds (every cut_pre / merge precondition of the model's run, by vm_compute) and "
-              "the model's final diagram passes sd_check; with C01_pipeline_exact_checked_partial and the exact tie below this is a second, independent kernel-checked "
-              "proof of exactness of that instance"),
+        ("F", "pipeline model, THE DRIVER: for every tree with distinct identifiers and every term list with pairwise distinct operator strings (labels on the "
+              "tree; coefficients lambda*gamma arbitrary, symbolic or numeric), from_hamiltonian_bipartite t H = Some d => sd_denote d = ham_denote H "
+              "(C01_bipartite_exact).  Proved by the invariant of the BFS run (SD/PipelineInv.v): base-shaped sub-diagrams below the frontier, typed vertex names, "
+              "origin labels / subtree hash / alive child vertices of every frontier hyperedge, pairwise different hyperedges at the node whose child edges are cut, "
+              "fresh names and hash-table extension; every merge of combine_subtrees satisfies the hypotheses of merge_equal_subtrees_sound and every cut satisfies "
+              "cut_pre, so C01_cut_step_sound applies at every edge.  Not covered universally: two terms with the SAME string and different coefficients (re-hash "
+              "branch; next clause) and that the model returns Some (it returns None exactly where the implementation raises or leaves a dangling hyperedge, e.g. a "
+              "term with coefficient 0: a finding reported to the lead; checked per instance by the tie)"),
+        ("F", "pipeline model, checked form: sd_denote is preserved by a combine_subtrees call whose merges satisfy the decidable form of the hypotheses of "
+              "merge_equal_subtrees_sound (C01_combine_step_sound), and from_hamiltonian_bipartite t H = Some d with pipeline_ok t H = true (the step preconditions "
+              "evaluated before every step of the run) implies sd_denote d = ham_denote H for every tree and term list "
+              "(C01_pipeline_exact_checked_partial: partial w.r.t. term lists that repeat a string with different coefficients, where pipeline_ok is only "
+              "evaluated per instance)"),
+        ("I", "BIPARTITE, per explored instance without exactly repeated terms (incl. repeated strings with different coefficients): pipeline_ok holds (every cut_pre / "
+              "merge precondition of the model's run, by vm_compute) and the model's final diagram passes sd_check; with C01_pipeline_exact_checked_partial and the exact "
+              "tie below this is a second, independent kernel-checked proof of exactness of that instance"),
         ("V", "BIPARTITE driver tie (props/c01d.py): a recorder wrapped at run time around get_state_diagram_compound / combine_subtrees / cut_and_optimise exports the "
               "diagram after EVERY driver call; the model's pipeline_trace equals it call by call in the canonical form used for BASE (per node the ordered list of "
               "(label, lambda, gamma, bond indices), per edge the number of vertices), compared inside Coq, exact; the model's states satisfy sd_wf; the call sequence is "
